@@ -485,3 +485,118 @@ def replay_expand(rp):
     print('expand(%r, %r) -> %r\nproperty oracle (merged mentions through the output table give %r): %s'
           % (rp['abbr'], rp['config'], r, want, 'FAILS' if bad else 'holds'))
     return 1 if bad else 0
+
+
+# ---------------------------------------------------------------- statements through markup.parse (C03_statement_markup_parse)
+STMT_CFGS = [{}, {'options': {'output.reverseAttributes': True}}, {'syntax': 'xml'}, {'syntax': 'jsx'},
+             {'syntax': 'vue', 'options': {'output.reverseAttributes': True}}]
+VTNUM = {'raw': 0, 'q1': 1, 'q2': 2, 'expr': 3}
+
+
+def merged_attrs(e, reverse):
+    """[(name, value tokens, value type, boolean, implied, multiple, exact)]: the merge rules of the statement
+    (attr_util.merge_spec, an independent statement of them) applied to the written mentions of ONE element."""
+    import attr_util as au
+    out = []
+    for a in au.merge_spec(au_mentions(e), reverse):
+        v = a['value']
+        out.append((a['name'], None if v is None else payload(v), VTNUM[a['vt']], bool(a['boolean']), bool(a['implied']),
+                    bool(a['multiple']), bool(a.get('exact', True))))
+    return out
+
+
+def same_attrs(exp, got):
+    if got is None:
+        return not exp
+    if len(exp) != len(got):
+        return False
+    for e, g in zip(exp, got):
+        g = (g[0], None if g[1] is None else tuple(tuple(x) for x in g[1])) + tuple(g[2:])
+        if e[6]:
+            if tuple(e[:6]) != g:
+                return False
+        else:
+            # an empty class mention among others: only the class words are claimed, not the spacing
+            if (e[0],) + tuple(e[2:6]) != (g[0],) + tuple(g[2:6]):
+                return False
+            ev = ''.join(x[1] for x in (e[1] or ())).split()
+            gv = ''.join(x[1] for x in (g[1] or ()) if x[0] == 's').split()
+            if ev != gv:
+                return False
+    return True
+
+
+def check_stmt_parse(abbr, cfg, places):
+    """places: [(depth, element)] the operators denote.  markup.parse must return exactly these places, each
+    carrying its own element's name, text and merged mentions."""
+    import copy
+    import attr_util as au
+    from emmet.config import Config
+    t = au.impl_tree(abbr, cfg)
+    if t[0] != 'ok':
+        return 'markup.parse raised %r' % (t,), t
+    reverse = bool(Config(copy.deepcopy(cfg)).options.get('output.reverseAttributes'))
+    got = t[1]
+    if len(got) != len(places):
+        return 'the tree has %d nodes, the statement writes %d elements' % (len(got), len(places)), t
+    for k, ((d, e), g) in enumerate(zip(places, got)):
+        value = (('s', e['text'][1]),) if e.get('text') is not None and e['text'][1] else None
+        gv = None if g[2] is None else tuple(tuple(x) for x in g[2])
+        if (g[0], g[1], gv, g[3], bool(g[5])) != (d, e['name'], value, None, False):
+            return 'place %d is %r, written: depth %d element %r text %r' % (k, g[:4], d, e['name'], value), t
+        if not same_attrs(merged_attrs(e, reverse), g[4]):
+            return 'place %d (%s) carries attributes %r, its written mentions merge to %r' % (
+                k, e['name'], g[4], [x[:6] for x in merged_attrs(e, reverse)]), t
+    return None, t
+
+
+def places_of(xs):
+    depth = 0
+    out = []
+    for e, op in xs:
+        out.append((depth, e))
+        if op == '>':
+            depth += 1
+        elif op != '+':
+            depth = max(0, depth - len(op))
+    return out
+
+
+def run_stmt_parse_stream(ctx, prop, n):
+    import re
+    import attr_util as au
+    from emmet.snippets import markup_snippets
+    from emmet.snippets import xsl_snippets
+    rng = ctx.rng
+    cases = []
+    for k in range(n):
+        cfg = json.loads(json.dumps(STMT_CFGS[k % len(STMT_CFGS)]))
+        jsx = cfg.get('syntax') == 'jsx'
+        xs = rand_stmt(rng, jsx)
+        for e, _ in xs:
+            nm = e['name']
+            if nm in markup_snippets or nm.lower() in markup_snippets or nm in xsl_snippets or re.match(r'(?i)lorem|label$', nm):
+                e['name'] = 'x' + nm
+            if jsx and 'A' <= e['name'][0] <= 'Z':
+                e['name'] = 'x' + e['name']
+        abbr = stmt_text(xs)
+        places = places_of(xs)
+        why, t = check_stmt_parse(abbr, cfg, places)
+        ctx.count_eval()
+        ctx.cover('%sstmt-parse:%s' % (prop, cfg.get('syntax', 'html')))
+        ctx.nontrivial(('stmt-parse', abbr, json.dumps(cfg, sort_keys=True)))
+        if why:
+            ctx.property_failure('%sstmt:%s|%s' % (prop, abbr, json.dumps(cfg, sort_keys=True)),
+                                 '%s markup.parse(%r, %s): %s' % (prop, abbr, json.dumps(cfg, sort_keys=True), why),
+                                 {'component': 'stmt-parse', 'abbr': abbr, 'config': cfg,
+                                  'places': [[d, e] for d, e in places], 'impl': repr(t)[:500], 'why': why})
+        cases.append((abbr, cfg))
+    au.compare_trees(ctx, prop + 'stmt', cases)
+    return cases
+
+
+def replay_stmt_parse(rp):
+    places = [(d, {'name': e['name'], 'parts': [tuple(p) for p in e['parts']], 'text': e.get('text')}) for d, e in rp['places']]
+    why, t = check_stmt_parse(rp['abbr'], rp['config'], places)
+    print('markup.parse(%r, %r) -> %r\nproperty oracle (places + merged mentions per element): %s' % (rp['abbr'], rp['config'], t, why or 'holds'))
+    return 1 if why else 0
